@@ -47,11 +47,38 @@ def programs(ctx, want_cancel):
             # just waits for its context is not told (environment, not the library)
             http = 2
         out.append(dict(p, http=http, proto=proto))
+        # request messages larger than the HTTP/2 flow-control window: a Send blocks until the handler reads it or
+        # finishes (only with handlers that finish on their own: no circular wait)
+        if http == 2 and p["h"]["hret"] != "stall" and (i % 4 == 0 or (p["kind"] == "server" and p["h"]["hrecv"] == 0)):
+            out.append(dict(p, http=2, proto=proto, big=True))
     return out
+
+
+def receiving(ctx):
+    """C15 "while receiving": the context ends at every byte offset of every response body of the Frames design
+    check (inside a prefix, inside a payload, between frames); the failing call must carry the context's code."""
+    from . import p_frames
+    core.design_check(ctx, "MC_Frames", "MC_Frames.cfg")
+    scen = []
+    for r in p_frames.gen_a(ctx, ctx_tails=True):
+        lim = r["sc"]["limit"]
+        if lim > 0 and any(f["flag"] not in (0, 1) for f in r["sc"]["frames"]):
+            # (the concrete terminator frames are larger than the design check's small limits: a terminator frame
+            #  above the read limit is C09's known finding, not this property's subject)
+            continue
+        for script in ([[], p_frames.ONES] if ctx.tier == "quick" else [[], p_frames.ONES, p_frames.SPLIT]):
+            s = p_frames.flat(r, script, False)
+            scen.append(s)
+            scen += p_frames.unary_variants(s)
+    tf = core.run_runner(ctx, "frames", scen, tag="recvctx")
+    acc, rej = core.validate(ctx, "TraceFrames", tf, tag="recvctx", sigfn=p_frames.sig(ctx.prop))
+    core.judge(ctx, rej)
 
 
 def run_call(ctx, want_cancel):
     quick = ctx.tier == "quick"
+    if want_cancel:
+        receiving(ctx)
     core.design_check(ctx, "MC_Call", "MC_Call_Q.cfg" if quick else "MC_Call.cfg", timeout=3600)
     scen = programs(ctx, want_cancel)
     tf = core.run_runner(ctx, "call", scen, tag="call", timeout=7200, args=["-hang", "120s", "-workers", "8"])
@@ -117,7 +144,7 @@ def run_C13(ctx):
     core.judge(ctx, rej)
     acc, rej = core.validate(ctx, "TracePools", pool2, tag="pool2", shards=4, sigfn=pool_sig)
     core.judge(ctx, rej)
-    fr = [p_frames.flat(r, [], False) for r in core.generate(ctx, "Gen_Frames", "Gen_Frames_A.cfg", tag="genA")["scenarios"]
+    fr = [p_frames.flat(r, [], False) for r in p_frames.gen_a(ctx)
           if r["sc"]["limit"] == 0]
     fr = core.sample(ctx.rng, fr, 3000 if quick else 20000)
     pool3 = ctx.path("pool-frames.ndjson")
